@@ -55,7 +55,7 @@ _CASE = dict(WORDS)
 # words by Unicode case class: a letter without case (CJK), a cased character that is not a letter (small roman
 # numeral, feminine ordinal), a title-case letter, a caseless digit-like character; judged by the transcription, whose
 # rule is the implementation's documented one (first letter at depth 0: upper case if isupper(), else lower case)
-SIGMA_CLASS = ["AA", "bb", "\u4e2d", "\u2177", "\u01c5", "\xaa", " ", ","]
+SIGMA_CLASS = ["AA", "bb", "\u4e2d", "\u2177", "\u01c5", "\xaa", " ", ",", "{\\'1}X", "{\\'\u4e2d}x"]  # (the last two: special characters holding a digit / a letter without case)
 
 
 def bounds(tier):
@@ -67,7 +67,7 @@ def bounds(tier):
         "word_alphabet_max_len": 7 if tier == "quick" else 8,
         "word_alphabet": SIGMA_WORDS,
         "case_class_alphabet": SIGMA_CLASS,
-        "case_class_max_len": 6 if tier == "quick" else 7,
+        "case_class_max_len": 5 if tier == "quick" else 6,
         "deviation_bases": ["".join(b) for b in BASES],
         "deviation_bound": 2 if tier == "quick" else 3,
     }
@@ -80,7 +80,7 @@ def shards(tier):
     out += [("main", s) for s in seq_shards(SIGMA_MAIN, n, min_len=n)]
     # deeper over words and the main separators only: up to 4 (quick) / 5 (thorough) words in every case pattern
     out += [("words", s) for s in seq_shards(SIGMA_WORDS, 7 if tier == "quick" else 8, min_len=6 if tier == "quick" else 7, prefix_len=3)]
-    out += [("class", s) for s in seq_shards(SIGMA_CLASS, 6 if tier == "quick" else 7)]
+    out += [("class", s) for s in seq_shards(SIGMA_CLASS, 5 if tier == "quick" else 6)]
     out += [("mw", 0), ("mw", 1), ("mw", 2), ("leak", 0)]
     out += [("ball", b, k, st, n) for (_, b, k, st, n) in spaces.ball_shards(len(BASES), 2 if tier == "quick" else 3)]
     return out
